@@ -47,7 +47,11 @@ func (t scopedTri) PointInSide(p vector3.Float64) bool {
 func (t scopedTri) ClosestPoint(p vector3.Float64) vector3.Float64 {
 	closestPoint := t.Plane().ClosestPoint(p)
 
-	if t.PointInSide(closestPoint) {
+	// A triangle without area has no plane. Its closest point is the closest
+	// point of its edges
+	if closestPoint.ContainsNaN() {
+		closestPoint = p
+	} else if t.PointInSide(closestPoint) {
 		return closestPoint
 	}
 
@@ -266,7 +270,11 @@ func (t Tri) LineIntersects(line geometry.Line3D) (vector3.Float64, bool) {
 func (t Tri) ClosestPoint(attr string, p vector3.Float64) vector3.Float64 {
 	closestPoint := t.Plane(attr).ClosestPoint(p)
 
-	if t.PointInSide(closestPoint) {
+	// A triangle without area has no plane. Its closest point is the closest
+	// point of its edges
+	if closestPoint.ContainsNaN() {
+		closestPoint = p
+	} else if t.PointInSide(closestPoint) {
 		return closestPoint
 	}
 
